@@ -220,6 +220,22 @@ const OPERATORS: &[(&str, Operator)] = &[
     (")", Operator::CloseParen),
 ];
 
+/// Parses an integer constant.
+///
+/// The constant is hexadecimal if it starts with `0x` or `0X`, octal if it
+/// starts with `0`, and decimal otherwise.
+pub(crate) fn parse_integer_constant(token: &str) -> Result<i64, std::num::ParseIntError> {
+    if let Some(digits) = token.strip_prefix("0X") {
+        i64::from_str_radix(digits, 0x10)
+    } else if let Some(digits) = token.strip_prefix("0x") {
+        i64::from_str_radix(digits, 0x10)
+    } else if token.starts_with('0') {
+        i64::from_str_radix(token, 0o10)
+    } else {
+        token.parse()
+    }
+}
+
 /// Iterator extracting tokens from a string
 ///
 /// `Tokens` implements `Iterator` but never yields `None` because it returns a
@@ -279,16 +295,7 @@ impl<'a> Tokens<'a> {
             let location = start_of_token..end_of_token;
             let token = &source[..token_len];
             let term = if first_char.is_ascii_digit() {
-                let parse = if let Some(token_source) = token.strip_prefix("0X") {
-                    i64::from_str_radix(token_source, 0x10)
-                } else if let Some(token_source) = token.strip_prefix("0x") {
-                    i64::from_str_radix(token_source, 0x10)
-                } else if source.starts_with('0') {
-                    i64::from_str_radix(token, 0o10)
-                } else {
-                    token.parse()
-                };
-                match parse {
+                match parse_integer_constant(token) {
                     Ok(i) => Term::Value(Value::Integer(i)),
                     Err(_) => {
                         return Err(Error {
